@@ -383,6 +383,51 @@ def _head_mirror_ok(ck):
     return True
 
 
+def rule_head_store_fresh(ck, R):
+    """C09.e  The early answers (busy, receive overflow) and the "was part of a frame received" test are built from the
+    head store the receive sink mirrors the first octets of THIS frame into.  It has to be empty when the sink is set up:
+    on every path of regp_recv the buffer handed to the sink as its fallback is known to hold no octet (used == 0 and
+    offset == 0 by its initialiser, or emptied by a byte-buffer call on that very object before the sink is set up).  A
+    store kept in the instance and emptied only after a frame was delivered still holds the header of a frame that a
+    channel error cut off - the next frame that meets an allocation failure is answered from it."""
+    eng = R.engine({'early_ebusy', 'early_erxoverflow'})
+    ps = R.paths('regp_recv', 'C09.e', eng)
+    if ps is None:
+        return
+    where = R.where('regp_recv')
+    bad = None
+    nset = 0
+    EMPTIERS = ('byte_buffer_clear', 'byte_buffer_reset', 'byte_buffer_space')
+    for p in ps:
+        for e in p.calls('continuable_sink_init'):
+            nset += 1
+            cs = None
+            for a in e.args:
+                a = strip_cast(a)
+                if a[0] == '&' and a[1] in e.pointees and e.pointees[a[1]][0] == 'struct' and 'fallback' in dict(e.pointees[a[1]][2]):
+                    cs = dict(e.pointees[a[1]][2])
+            if cs is None:
+                return ck.broken('C09.e', 'regp_recv:head-store-fresh', where, 'the sink\'s set-up object with its fallback buffer is not readable at continuable_sink_init')
+            fbp = strip_cast(cs['fallback'])
+            if fbp[0] != '&':
+                return ck.broken('C09.e', 'regp_recv:head-store-fresh', where, 'the fallback buffer is %s, not the address of an object' % fmt(fbp))
+            K = fbp[1]
+            pre = e.pointees.get(K)
+            known_empty = pre is not None and pre[0] == 'struct' and strip_cast(dict(pre[2]).get('used', ('?',))) == C(0) \
+                and strip_cast(dict(pre[2]).get('offset', ('?',))) == C(0)
+            if not known_empty:
+                before = p.effects[:p.effects.index(e)]
+                known_empty = any(x.kind == 'call' and x.name in EMPTIERS and strip_cast(x.args[0]) == fbp for x in before)
+            if not known_empty and bad is None:
+                bad = ('the head store handed to the receive sink (%s) is not known to be empty when the sink is set up (%s): it may still hold the first octets of an EARLIER '
+                       'frame - one that a channel error cut off - and the busy / overflow answer and the "part of a frame received" test of this call are built from them'
+                       % (fmt(fbp), 'an object of the instance, emptied on some paths only' if sym.rooted_at(K, ('v', 'p')) else 'no initialiser or emptying call on this path'))
+    if nset == 0:
+        return ck.broken('C09.e', 'regp_recv:head-store-fresh', where, 'no continuable_sink_init call found')
+    ck.verdict(bad is None, 'C09.e', 'regp_recv:head-store-fresh', where,
+               'the head store is empty whenever the receive sink is set up (%d set-ups)' % nset if bad is None else bad)
+
+
 def rule_d(ck, R):
     ps = R.paths('regp_process', 'C09.d')
     if ps is None:
@@ -549,6 +594,7 @@ def run(ck):
     rule_alloc(ck)
     R = Regp(ck)
     rule_bce(ck, R)
+    rule_head_store_fresh(ck, R)
     rule_d(ck, R)
     rule_fg(ck, R)
     from .common import reevaluate
